@@ -29,7 +29,7 @@ import _c24_lib as T  # noqa: E402
 SRC = ["src/pynguin/analyses/seeding.py", "src/pynguin/large_language_model/parsing/deserializer.py",
        "src/pynguin/testcase/export.py", "src/pynguin/assertion/assertion_to_ast.py"]
 SUT_DIR = vlib.VERIF / "corpus" / "C18" / "sut"
-SUT_MODULES = ["numeric", "strings", "containers", "state", "enums", "floats", "rnd", "errors", "shapes.area", "foreign", "exits", "kwclash", "declared", "rndkey", "summary", "testnames", "nestedexc"]
+SUT_MODULES = ["numeric", "strings", "containers", "state", "enums", "floats", "rnd", "errors", "shapes.area", "foreign", "exits", "kwclash", "declared", "rndkey", "summary", "testnames", "nestedexc", "shadow"]
 MODES = ["MUTATION_ANALYSIS", "SIMPLE", "SIMPLE", "CHECKED_MINIMIZING"]
 GEN = str(Path(__file__).resolve().parent / "_c18_gen.py")
 MODULE = "c18stub"
